@@ -41,6 +41,20 @@ func positionShapes() map[string]func(prefix string) *spec.Spec {
 			}}
 			return &spec.Spec{Kind: spec.KScope, Root: p + "A", Objects: []*spec.Spec{a, b, c}}
 		},
+		// disabled properties whose types need linking and verification like any other (only Unserialize refuses a
+		// disabled property before looking at its type)
+		"disabled": func(p string) *spec.Spec {
+			b := &spec.Spec{Kind: spec.KObject, ID: p + "B", Props: []spec.Prop{{Name: "s", Type: str}}}
+			inner := &spec.Spec{Kind: spec.KScope, Root: p + "N", Objects: []*spec.Spec{{Kind: spec.KObject, ID: p + "N", Props: []spec.Prop{{Name: "n", Type: integer}}}}}
+			inPlace := &spec.Spec{Kind: spec.KObject, ID: p + "I", Props: []spec.Prop{{Name: "n", Type: integer, Default: &one}, {Name: "t", Type: str}}}
+			a := &spec.Spec{Kind: spec.KObject, ID: p + "A", Props: []spec.Prop{
+				{Name: "d", Type: &spec.Spec{Kind: spec.KRef, RefID: p + "B"}, Disabled: true, DisabledReason: "not here"},
+				{Name: "e", Type: inner, Disabled: true},
+				{Name: "f", Type: &spec.Spec{Kind: spec.KList, Items: inPlace}, Disabled: true},
+				{Name: "q", Type: integer},
+			}}
+			return &spec.Spec{Kind: spec.KScope, Root: p + "A", Objects: []*spec.Spec{a, b}}
+		},
 		// objects written in place (not registered in the scope) as one-of member, list item and map value, each with
 		// a default text and a reference of its own
 		"inplace": func(p string) *spec.Spec {
@@ -74,6 +88,9 @@ var positionInputs = []val.V{
 	val.Map("map[string]any", kv("p", val.Map("map[string]any", kv("s", val.Str("x")))), kv("q", val.Int("int64", 2))),
 	val.Map("map[string]any", kv("p", val.Map("map[string]any", kv("kind", val.Str("b")), kv("s", val.Str("x")))), kv("l", val.List("[]any", val.Map("map[string]any", kv("s", val.Str("y")))))),
 	val.Map("map[any]any", kv("p", val.Map("map[any]any", kv("kind", val.Str("c"))))),
+	val.Map("map[string]any", kv("d", val.Map("map[string]any", kv("s", val.Str("x")))), kv("q", val.Int("int64", 1))),
+	val.Map("map[any]any", kv("e", val.Map("map[any]any", kv("n", val.Int("int64", 1))))),
+	val.Map("map[string]any", kv("f", val.List("[]any", val.Map("map[any]any", kv("t", val.Str("x")))))),
 	val.Map("map[string]any", kv("p", val.Map("map[string]any", kv("kind", val.Str("i")))), kv("l", val.List("[]any", val.Map("map[string]any"))), kv("m", val.Map("map[string]any", kv("a", val.Map("map[string]any", kv("r", val.Map("map[string]any", kv("s", val.Str("x"))))))))),
 }
 
@@ -88,7 +105,7 @@ func TestPositions(t *testing.T) {
 	defer w.Close()
 	idx, total := 0, 0
 	shapes := positionShapes()
-	for _, shapeName := range []string{"refs", "oneof", "inplace"} {
+	for _, shapeName := range []string{"refs", "oneof", "inplace", "disabled"} {
 		mk := func(prefix string) *schema.ScopeSchema {
 			b, err := spec.Build(shapes[shapeName](prefix))
 			if err != nil {
@@ -145,5 +162,5 @@ func TestPositions(t *testing.T) {
 			}
 		}
 	}
-	ev.Exhaustive(fmt.Sprintf("positions: all %d single mutations of 9 small plugin descriptions (3 scope shapes with references, one of them with objects written in place as one-of member / list item / map value, x 3 ways the handler / emitter / output IDs coincide), every scope-carrying position holding a scope that needs linking and verification", total))
+	ev.Exhaustive(fmt.Sprintf("positions: all %d single mutations of 12 small plugin descriptions (4 scope shapes with references - one with objects written in place as one-of member / list item / map value, one with disabled properties - x 3 ways the handler / emitter / output IDs coincide), every scope-carrying position holding a scope that needs linking and verification", total))
 }
